@@ -88,6 +88,11 @@ func normalizeDocument(schema *Schema, doc *ast.Document, operationName string) 
 			ctx.usedNames[vd.Variable.Name.Value] = true
 		}
 	}
+	for _, def := range doc.Definitions {
+		if fd, ok := def.(*ast.FragmentDefinition); ok && fd != nil {
+			ctx.collectFragmentKeys(fd.SelectionSet)
+		}
+	}
 
 	newOp := cloneOperation(op)
 	ctx.normalizeSelectionSet(newOp.SelectionSet, rootType)
@@ -373,6 +378,35 @@ type normCtx struct {
 	// created for it, so that equal literals stay equal after normalization
 	// (otherwise `{ f(x:1) f(x:1) }` would become two conflicting fields).
 	extracted map[string]string
+	// fragmentKeys holds the response keys of the fields written inside named
+	// fragments. Their literals are not extracted, so a field of the operation
+	// with one of these keys keeps its literals too: it may have to merge with
+	// the fragment's field, and `f(x:$__pcv0)` next to `f(x:1)` would be
+	// rejected as conflicting.
+	fragmentKeys map[string]bool
+}
+
+func (c *normCtx) collectFragmentKeys(sel *ast.SelectionSet) {
+	if sel == nil {
+		return
+	}
+	for _, isel := range sel.Selections {
+		switch s := isel.(type) {
+		case *ast.Field:
+			if s == nil {
+				continue
+			}
+			if c.fragmentKeys == nil {
+				c.fragmentKeys = map[string]bool{}
+			}
+			c.fragmentKeys[getFieldEntryKey(s)] = true
+			c.collectFragmentKeys(s.SelectionSet)
+		case *ast.InlineFragment:
+			if s != nil {
+				c.collectFragmentKeys(s.SelectionSet)
+			}
+		}
+	}
 }
 
 func (c *normCtx) nextName() string {
@@ -425,7 +459,7 @@ func (c *normCtx) normalizeField(f *ast.Field, parentType *Object) {
 	if fieldDef == nil {
 		return
 	}
-	if len(f.Arguments) > 0 {
+	if len(f.Arguments) > 0 && !c.fragmentKeys[getFieldEntryKey(f)] {
 		// Build an arg-name → argDef map for O(1) lookup.
 		argDefByName := make(map[string]*Argument, len(fieldDef.Args))
 		for _, ad := range fieldDef.Args {
